@@ -336,9 +336,11 @@ impl IoLoop {
                 // If our credentials are bad, the socket is dropped without a message,
                 // but we can detect that if we had gotten up to the Secure state before
                 // failing.
-                return match state {
-                    HandshakeState::Secure(_, _) => InvalidCredentialsSnafu.fail(),
-                    _ => Err(err),
+                return match (state, err) {
+                    // a Secure challenge is a reply from the server, not a dropped socket
+                    (HandshakeState::Secure(_, _), err @ Error::SaslSecureNotSupported) => Err(err),
+                    (HandshakeState::Secure(_, _), _) => InvalidCredentialsSnafu.fail(),
+                    (_, err) => Err(err),
                 };
             }
         }
